@@ -238,6 +238,23 @@ LOOPS = ("While", "ForLoop", "Loop")
 RANGE_FOR = re.compile(r"^\(?\s*[\w\.\(\)\s\+\-\*]*\.\.=?[\w\.\(\)\s\+\-\*]*\)?(\s*\.\s*rev\s*\(\s*\))?$", re.S)
 
 
+def split_top(s):
+    out, depth, cur = [], 0, ""
+    for ch in s:
+        if ch in "<([":
+            depth += 1
+        elif ch in ">)]":
+            depth -= 1
+        if ch == "," and depth == 0:
+            out.append(cur)
+            cur = ""
+        else:
+            cur += ch
+    if cur.strip():
+        out.append(cur)
+    return out
+
+
 class Renderer:
     """Re-emits one function from its source text with rewrites and anchor insertions."""
 
@@ -255,6 +272,17 @@ class Renderer:
         for d in rec.rw:
             self.rw.setdefault(d[0], []).append(d[1:])
         self.synth_loops = 0
+        self.moved_generics, self.moved_where = [], ""
+        if fn.impl is not None and "trait" in fn.impl and fn.impl.get("generics_text"):
+            # R10: impl parameters that only the trait mentions (PartialEq<Store<I, P2, H2>>) become
+            # parameters of the inherent method; the where clause moves with them
+            selfty = fn.impl["self_ty_text"]
+            for g in split_top(fn.impl["generics_text"][1:-1]):
+                nm = g.strip().split(":")[0].strip()
+                if nm and not re.search(r"(?<![\w'])%s\b" % re.escape(nm), selfty):
+                    self.moved_generics.append(g.strip())
+            if self.moved_generics:
+                self.moved_where = fn.impl.get("where_text", "")
         self.assoc_types = {}
         if fn.impl is not None:
             # associated types: of this impl, else of any other trait impl for the same Self type
@@ -691,7 +719,12 @@ class Renderer:
         name = rec.attrs.get("name", node["name"])
         ret = rec.attrs.get("ret")
         # signature: qualifiers + fn + name + generics + params
-        head = self.t(sig_a, node["name_span"][0]) + name + self.t(node["name_span"][1], node["paren"][0])
+        fgen = self.t(node["name_span"][1], node["paren"][0])
+        if self.moved_generics:
+            inner = fgen.strip()[1:-1] if fgen.strip() else ""
+            fgen = "<" + ", ".join(self.moved_generics + ([inner] if inner else [])) + ">"
+            self.log.append("R10 trait-only impl parameters moved to the method: " + ", ".join(self.moved_generics))
+        head = self.t(sig_a, node["name_span"][0]) + name + fgen
         params = self.t(node["paren"][0], node["paren"][1])
         body_pre = ""
         # R11: `mut self` / `mut x` parameters -> rebinding at body entry
@@ -716,6 +749,9 @@ class Renderer:
         else:
             after_ret = node["paren"][1]
         where = self.t(after_ret, sig_b)
+        if self.moved_where:
+            mw = self.moved_where.strip()
+            where = (" " + mw) if not where.strip() else where.rstrip().rstrip(",") + ", " + re.sub(r"^where\s*", "", mw)
         spec = ""
         for kind in ("requires", "ensures", "decreases"):
             ss = self.secs(kind)
@@ -816,7 +852,6 @@ def struct_text(src, it, keep_derive):
     txt = txt.replace("pub(crate)", "pub")
     if not txt.lstrip().startswith("pub"):
         txt = "pub " + txt.lstrip()
-    txt = re.sub(r"\s*=\s*RandomState", "", txt)
     txt = re.sub(r"(?<![\w:])::indexmap::", "crate::indexmap::", txt)
     ders = [x["text"] for x in it.get("attrs", []) if x["path"] == "derive"]
     pre = "".join(d + "\n" for d in ders) if keep_derive else ""
@@ -882,6 +917,11 @@ def generate(outdir):
             im = fn.impl
             gen = im.get("generics_text", "")
             ty = fn.src.t(im["self_ref"]["elem"]) if "self_ref" in im else im["self_ty_text"]
+            if r.moved_generics:
+                keep = [g.strip() for g in split_top(gen[1:-1]) if g.strip() not in r.moved_generics]
+                gen = "<" + ", ".join(keep) + ">"
+                where = ""
+                im = dict(im, where_text="")
             if "'_" in ty:
                 # anonymous impl lifetime -> named (same meaning); lets `Self::Item` of the sibling impl resolve
                 ty = ty.replace("'_", "'a")
